@@ -8,7 +8,10 @@ from . import c08_lib as L
 from . import c08 as C8
 from .sx import Sym, d_float, d_opt, d_str, e_float, some
 
-RULE = ('operation histories of one worker closure over counters, gauges (all 10 modes), summaries and histograms, labelled '
+RULE = ('a systematic slice: SetPid immediately followed by ONE operation (set/inc/dec/observe/get/new child/new metric) for every '
+        'gauge mode and metric type, labelled and unlabelled, warm and cold; identities numeric and NON-numeric (hex ids ending '
+        'in b/d, ids with dots, ids that are suffixes of one another); then '
+        'operation histories of one worker closure over counters, gauges (all 10 modes), summaries and histograms, labelled '
         'and unlabelled, several metrics sharing the per-type files, with the identity changed (SetPid) at every position of '
         'short base histories and at random positions of long ones: before first use, between creation of a child and its '
         'first update, between two updates, back to an earlier identity; interpreter restarts with a seen or new identity; '
@@ -27,7 +30,9 @@ ASSUMPTIONS = ['no two live value objects of one closure share a (file prefix, k
 import os as _os
 TIME_BUDGET = {'quick': int(_os.environ.get('C08_BUDGET', '60')), 'thorough': int(_os.environ.get('C08_TBUDGET', '900'))}
 
-PIDS = [1, 11, 12, 2]
+# identities: numeric pids with shared decimal prefixes, and non-numeric worker ids (process_identifier may return any
+# string usable in a file name): hex ids ending in b / d, ids containing '.', ids that are suffixes of one another
+PIDS = [1, 11, 12, 2, 'c0ffee0b', 'c0ffee0d', 'c0ffee0', 'w.d', 'db', 'b', '1d', 'bd.']
 
 
 def base_history(rng, n, wild=False):
@@ -92,8 +97,45 @@ def finish(cat, ops):
     return {'metrics': cat, 'ops': fix_restarts(cat, ops) + [['collect']], 'snap': True}
 
 
+def first_op_slice(rng):
+    """SetPid p immediately followed by ONE operation (nothing in between), for every gauge mode and every other
+    metric type, labelled and unlabelled, and for every kind of operation that can come first: set / inc / dec /
+    observe / get / creation of a new child / creation of a new metric."""
+    decls = [dict(kind='counter', name='c', help='cc'), dict(kind='summary', name='s', help='ss'),
+             dict(kind='histogram', name='h', help='hh', buckets=[1.0, 2.5])]
+    decls += [dict(kind='gauge', name='g_' + m, help='gauge ' + m, mode=m) for m in L.MODES]
+    for d0 in decls:
+        for ln in ([], ['a']):
+            p0, p1 = rng.sample(PIDS, 2)
+            d = dict(d0, id=0, labelnames=ln)
+            other = dict(kind='counter', name='other', help='oo', labelnames=[], id=1)
+            lv = ['x'] if ln else []
+            k = d['kind']
+            upd = {'counter': [['inc', 0, 0, lv, 2.0]], 'summary': [['obs', 0, 0, lv, 0.5]], 'histogram': [['obs', 0, 0, lv, 2.0]],
+                   'gauge': [['set', 0, 0, lv, 5.0, 1001.0]]}[k]
+            firsts = list(upd)
+            if k == 'gauge':
+                firsts = [['set', 0, 0, lv, -3.0, 1002.0]]
+                if d['mode'] not in ('mostrecent', 'livemostrecent'):
+                    firsts += [['inc', 0, 0, lv, 1.0], ['dec', 0, 0, lv, 1.0]]
+            which = {'counter': '', 'gauge': '', 'summary': 'sum', 'histogram': 'sum'}[k]
+            firsts.append(['get', 0, 0, lv, which])
+            if ln:
+                firsts.append(['child', 0, 0, ['y']])
+                firsts.append(['set', 0, 0, ['y'], 1.0, 1003.0] if k == 'gauge' else
+                              ['inc', 0, 0, ['y'], 1.0] if k == 'counter' else ['obs', 0, 0, ['y'], 1.0])
+            firsts.append(['new', 0, 1])
+            for first in firsts:
+                for warm in (True, False):          # with and without an update under the first identity
+                    ops = [['spawn', 0, p0], ['new', 0, 0]] + (upd if warm else ([['child', 0, 0, lv]] if ln else []))
+                    ops += [['setpid', 0, p1], first, ['collect'], ['setpid', 0, p0]] + upd + [['collect']]
+                    yield {'metrics': [d, other], 'ops': ops, 'snap': True}
+
+
 def cases(ctx):
     rng = ctx.rng
+    for c in first_op_slice(rng):
+        yield c
     # every position of short histories, with a change to a new identity and a change back to the first one
     for _ in range(ctx.n(6, 60)):
         cat, ops = base_history(rng, rng.randrange(4, 9))
@@ -357,29 +399,29 @@ def direct(case, obs):
             ls = tuple(sorted(zip(d['labelnames'], op[3])))
             if d['kind'] == 'counter' or (d['kind'] == 'gauge' and kind == 'inc'):
                 cell = per_pid.setdefault((d['name'], ls, ''), {})
-                cell[pid] = cell.get(pid, 0.0) + op[4]
+                cell[str(pid)] = cell.get(str(pid), 0.0) + op[4]
             elif d['kind'] == 'gauge' and kind == 'dec':
                 cell = per_pid.setdefault((d['name'], ls, ''), {})
-                cell[pid] = cell.get(pid, 0.0) + -op[4]
+                cell[str(pid)] = cell.get(str(pid), 0.0) + -op[4]
             elif d['kind'] == 'gauge':
-                per_pid.setdefault((d['name'], ls, ''), {})[pid] = float(op[4])
+                per_pid.setdefault((d['name'], ls, ''), {})[str(pid)] = float(op[4])
             else:
                 cell = per_pid.setdefault((d['name'], ls, 'sum'), {})
-                cell[pid] = cell.get(pid, 0.0) + op[4]
+                cell[str(pid)] = cell.get(str(pid), 0.0) + op[4]
                 if d['kind'] == 'summary':
                     cell = per_pid.setdefault((d['name'], ls, 'count'), {})
-                    cell[pid] = cell.get(pid, 0.0) + 1
+                    cell[str(pid)] = cell.get(str(pid), 0.0) + 1
                 else:
                     for bi, b in enumerate(C8.Oracle.bounds(d)):
                         if op[4] <= b:
                             cell = per_pid.setdefault((d['name'], ls, bi), {})
-                            cell[pid] = cell.get(pid, 0.0) + 1
+                            cell[str(pid)] = cell.get(str(pid), 0.0) + 1
                             break
         # 3. get() continues from what this identity's file holds = what this identity issued so far
         if kind == 'get':
             d = cat[op[2]]
             ls = tuple(sorted(zip(d['labelnames'], op[3])))
-            want = per_pid.get((d['name'], ls, op[4]), {}).get(pid, 0.0)
+            want = per_pid.get((d['name'], ls, op[4]), {}).get(str(pid), 0.0)
             if not C8.close(L.canon(o['get']), L.canon(want)):
                 return ('op %d %r under identity %s returned %r; the updates issued under that identity amount to %r'
                         % (i, op, pid, o['get'], want))
@@ -406,7 +448,7 @@ def direct(case, obs):
                     ls = dict(ls)
                     p = ls.pop('pid', None)
                     issued = per_pid.get((name, tuple(sorted(ls.items())), ''), {})
-                    want = issued.get(int(p), 0.0) if p is not None and p.isdigit() else None
+                    want = issued.get(p, 0.0) if p is not None else None
                     if want is None or not C8.close(L.canon(v), L.canon(want)):
                         return ('at op %d (collect): gauge %s%r shows %r for pid %s; that identity issued updates amounting to %r'
                                 % (i, name, ls, v, p, want))
